@@ -453,7 +453,9 @@ ocp.set_der(v, a)
         ubs = defaultdict(list)
         canons = defaultdict(list)
         for c, meta, args in stage._constraints["control"]:
-            key = (args["refine"],args["group_refine"],args["include_first"],args["include_last"])
+            # Constraints evaluated together share one window of valid nodes: keep different next/prev offsets apart
+            offsets = tuple(sorted(set(stage._offsets[s][1] for s in ca.symvar(c) if s in stage._offsets)))
+            key = (args["refine"],args["group_refine"],args["include_first"],args["include_last"],offsets)
             (lb,canon,ub), mc = self.constraint_inspector.canon(c)
 
             lbs[key].append(lb)
@@ -464,7 +466,7 @@ ocp.set_der(v, a)
 
         # Loop over lumps
         for k in keys:
-            (refine,group_refine,include_first,include_last) = k
+            (refine,group_refine,include_first,include_last,_) = k
             lb = ca.vcat(lbs[k])
             ub = ca.vcat(ubs[k])
             canon = ca.vcat(canons[k])
